@@ -39,6 +39,8 @@ type c17Plan struct {
 	Fresh      bool          `json:"fresh_process"` // run in a fresh process (first-use races of lazily initialised package state)
 	// Alt: a second set of documents under the same URLs (every title prefixed): goroutines working on "distinct
 	// documents", each through its own loader. LoaderDelayUS makes the loaders slow, so that retrievals overlap.
+	// SharedOptions: all the goroutines of one world pass the same *ExpandOptions value (which nobody mutates)
+	SharedOptions bool              `json:"shared_options,omitempty"`
 	Alt           map[string]string `json:"alt_docs,omitempty"`
 	LoaderDelayUS int               `json:"loader_delay_us,omitempty"`
 }
@@ -49,6 +51,7 @@ type c17Env struct {
 	loaders     [2]*memLoader
 	sharedRoots [2]*spec.Swagger
 	sharedCache *logCache
+	sharedOpts  [2]*spec.ExpandOptions
 }
 
 func newC17Env(p c17Plan) (*c17Env, error) {
@@ -59,6 +62,9 @@ func newC17Env(p c17Plan) (*c17Env, error) {
 			continue
 		}
 		e.loaders[w] = newLoader(e.docs[w], nil)
+		if p.SharedOptions {
+			e.sharedOpts[w] = &spec.ExpandOptions{RelativeBase: p.Graph.Root, PathLoader: e.load(w)}
+		}
 		e.sharedRoots[w] = new(spec.Swagger)
 		if err := json.Unmarshal([]byte(e.docs[w][p.Graph.Root]), e.sharedRoots[w]); err != nil {
 			return nil, err
@@ -92,6 +98,9 @@ func (e *c17Env) run(op c17Op) (out []byte, errText string) {
 		return nil, "harness: no second world in this plan"
 	}
 	opts := &spec.ExpandOptions{RelativeBase: e.plan.Graph.Root, PathLoader: e.load(w)}
+	if e.sharedOpts[w] != nil {
+		opts = e.sharedOpts[w]
+	}
 	var cache spec.ResolutionCache
 	switch op.Cache {
 	case "own":
@@ -138,6 +147,21 @@ func (e *c17Env) run(op c17Op) (out []byte, errText string) {
 			errText = err.Error()
 		}
 		out, _ = json.Marshal(s)
+	case "badid":
+		// a $ref-free schema whose `id` is not a URL, expanded from a location that is not one either: the
+		// package repairs both (and says so on its log); op.Elem is the id, the base is derived from it
+		var s spec.Schema
+		if err := json.Unmarshal(mustJSON(map[string]any{"id": op.Elem, "title": "T", "properties": map[string]any{"p": map[string]any{"type": "string"}}}), &s); err != nil {
+			return nil, "harness: " + err.Error()
+		}
+		bad := *opts
+		if len(op.Elem)%2 == 0 {
+			bad.RelativeBase = "file:///w/a/%zz" + fmt.Sprint(len(op.Elem)) + "/root.json"
+		}
+		if err := spec.ExpandSchemaWithBasePath(&s, cache, &bad); err != nil {
+			errText = err.Error()
+		}
+		out, _ = json.Marshal(&s)
 	case "marshal":
 		b, err := json.Marshal(e.sharedRoots[w])
 		if err != nil {
@@ -341,7 +365,8 @@ func genC17(t *rapid.T) c17Plan {
 		}
 	}
 	twoWorlds := gen.Pct(t, "two worlds", 35)
-	p := c17Plan{Graph: g, GoMaxProcs: []int{1, 2, 4, 16}[gen.Uniform(t, "gomaxprocs", 4)], Fresh: gen.Pct(t, "fresh", 12)}
+	sharedOptions := gen.Pct(t, "shared options", 40)
+	p := c17Plan{SharedOptions: sharedOptions, Graph: g, GoMaxProcs: []int{1, 2, 4, 16}[gen.Uniform(t, "gomaxprocs", 4)], Fresh: gen.Pct(t, "fresh", 12)}
 	if twoWorlds {
 		p.Alt = map[string]string{}
 		for u, d := range g.Docs {
@@ -367,6 +392,10 @@ func genC17(t *rapid.T) c17Plan {
 			case k == 5 && len(schemaElems) > 0:
 				op.Op = "resolve"
 				op.Elem = "#" + fragmentEsc(schemaElems[gen.Uniform(t, "elem", len(schemaElems))])
+			case k == 8 && gen.Pct(t, "badid", 40):
+				op.Op = "badid"
+				op.Elem = c17BadIDs[gen.Uniform(t, "badidv", len(c17BadIDs))] + fmt.Sprint(gen.Uniform(t, "badidn", 50))
+				op.Cache = []string{"none", "own"}[gen.Uniform(t, "cache", 2)]
 			case k == 6 || (k == 7 && rapid.Bool().Draw(t, "more marshal")):
 				op.Op = "marshal"
 			default:
@@ -389,6 +418,9 @@ func genC17(t *rapid.T) c17Plan {
 	}
 	return p
 }
+
+// c17BadIDs: `id`s that net/url refuses (a number is appended: fresh ones in every plan).
+var c17BadIDs = []string{"http://[::1/x", "%zz/a.json", "http://h.example/%", "a b://x/", ":nocolon"}
 
 func fragmentEsc(ptr string) string {
 	var sb strings.Builder
@@ -415,6 +447,7 @@ func TestC17(t *testing.T) {
 		r.LabelIf(p.Fresh, "fresh process (first-use of lazy state)")
 		r.LabelIf(p.Alt != nil, "two sets of documents under the same URLs, each with its own loader")
 		r.LabelIf(p.LoaderDelayUS > 0, "slow loaders (overlapping retrievals)")
+		r.LabelIf(p.SharedOptions, "one options value shared by the goroutines")
 		shared := 0
 		for _, ops := range p.Goroutines {
 			for _, op := range ops {
